@@ -12,7 +12,7 @@ def _abs2sum(E, xd):
 @scenario
 def tt_norm(E, s):
     """norm(), plain and squared, tracked (Gram chain) and untracked (QR sweep)"""
-    x, xc = tt_input(E, 'x', s['N'], s['R'], s['dtype'], s.get('M'))
+    x, xc = tt_input(E, 'x', s['N'], s['R'], s['dtype'], s.get('M'), via=s.get('via'))
     xd = dense(E, xc)
     ssq = _abs2sum(E, xd)
     if s.get('tracked'):
@@ -42,8 +42,8 @@ def tt_norm(E, s):
 @scenario
 def tt_dot(E, s):
     tn = E.tn
-    a, ac = tt_input(E, 'a', s['Na'], s['Ra'], s['dtype'])
-    b, bc = tt_input(E, 'b', s['Nb'], s['Rb'], s['dtype'])
+    a, ac = tt_input(E, 'a', s['Na'], s['Ra'], s['dtype'], via=s.get('via'))
+    b, bc = tt_input(E, 'b', s['Nb'], s['Rb'], s['dtype'], via=s.get('via'))
     ad, bd = dense(E, ac), dense(E, bc)
     axis = s.get('axis')
     if axis is None:
@@ -65,7 +65,7 @@ def tt_dot(E, s):
 def tt_sum(E, s):
     tn = E.tn
     d = len(s['N'])
-    x, xc = tt_input(E, 'x', s['N'], s['R'], s['dtype'], s.get('M'))
+    x, xc = tt_input(E, 'x', s['N'], s['R'], s['dtype'], s.get('M'), via=s.get('via'))
     xd = dense(E, xc)
     idx = s.get('index')
     if idx is None:
@@ -90,9 +90,9 @@ def tt_sum(E, s):
 def tt_bilinear(E, s):
     tn = E.tn
     d = len(s['N'])
-    x, xc = tt_input(E, 'x', s['M'], s['Rx'], s['dtype'])
-    A, Ac = tt_input(E, 'A', s['N'], s['RA'], s['dtype'], s['M'])
-    y, yc = tt_input(E, 'y', s['N'], s['Ry'], s['dtype'])
+    x, xc = tt_input(E, 'x', s['M'], s['Rx'], s['dtype'], via=s.get('via'))
+    A, Ac = tt_input(E, 'A', s['N'], s['RA'], s['dtype'], s['M'], via=s.get('via'))
+    y, yc = tt_input(E, 'y', s['N'], s['Ry'], s['dtype'], via=s.get('via'))
     r = E.tt.bilinear_form(x, A, y)
     Ay = tn.tensordot(dense(E, Ac), dense(E, yc), dims=(list(range(d, 2 * d)), list(range(d))))
     ref = tn.sum(tn.conj(dense(E, xc)) * Ay)
